@@ -164,7 +164,7 @@ def run(ctx):
             c = dict(s)
             c["scenario"] = scen
             c["split"] = rnd.randint(1, 5)
-            c["rot"] = rnd.randint(0, 9)
+            c["rot"] = rnd.randint(0, 10)
             cases.append(c)
     if q:
         cases = cases[:420]
